@@ -250,6 +250,7 @@ def view_triples(prefix, a, b):
                 if isinstance(ra, EXSResult):
                     out.append((f"{prefix}/{k}[{i}]/y", getattr(rb, "y", None), ra.y))
                 out.append((f"{prefix}/{k}[{i}]/order-keys", sorted(rb.orders), sorted(ra.orders)))
+                out.append((f"{prefix}/{k}[{i}]/order-keys-sequence", list(rb.orders), list(ra.orders)))
                 out.append((f"{prefix}/{k}[{i}]/order-keys-are-tuples", all(isinstance(o, tuple) for o in rb.orders), True))
                 for o in ra.orders:
                     if o not in rb.orders:
@@ -277,6 +278,8 @@ SHAPES = {
     "ESF-1pt": {"F2_total": ("ESF", 1, [(0, 0, 0, 0)], 4)},
     "ESF-3pts-3orders": {"F2_charm": ("ESF", 3, [(0, 0, 0, 0), (1, 0, 0, 0), (1, 0, 0, 1)], None)},
     "EXS-2pts": {"XSHERANC_total": ("EXS", 2, [(0, 0, 0, 0), (2, 0, 1, 1)], 5)},
+    # order keys in the (unsorted) insertion order of scale_variations.build_orders
+    "ESF-build_orders-order": {"F2_light": ("ESF", 2, [(0, 0, 0, 0), (1, 0, 0, 0), (1, 0, 0, 1), (2, 0, 0, 0), (2, 0, 1, 0), (2, 0, 0, 1), (2, 0, 1, 1), (2, 0, 0, 2), (2, 0, 1, 2)], None)},
     "mixed+None": {"F2_total": ("ESF", 2, [(0, 0, 0, 0), (1, 0, 0, 0)], None), "XSCHORUSCC_light": ("EXS", 1, [(0, 0, 0, 0)], 3), "FL_bottom": (None, None, None, None)},
     "empty-observable": {"F2_total": ("ESF", 0, [(0, 0, 0, 0)], 4), "F3_total": ("ESF", 1, [(0, 0, 0, 0)], 4)},
     "only-None": {"g1_total": (None, None, None, None)},
